@@ -1,4 +1,47 @@
-import Nstd.Life.Model
+import Nstd.Life.LemmasAll
+/-
+  Property theorems of the Life area.
+
+  C04  containers construct and destroy each element exactly once; copies are deep; self-arguments
+       behave as if copied first.
+  C05  elements of node and pool containers never move while they live.
+
+  Model: Nstd/Life/Model.lean (slot-level model of Array, List, Map, MultiMap, HashMap, HashSet,
+  PoolList, PoolMap: two variables of each kind, operations `Op` incl. the alias operations, compiled
+  into micro steps that emit the lifecycle event log).  Judge of the log: the automaton `Chk` of
+  Nstd/Life/Spec.lean.  `run init ops` = the state after an arbitrary history `ops` starting from the
+  sixteen default-constructed variables; `destroyAll` = their destructors.
+-/
 namespace Nstd.Life
-theorem init_alive : (init.nodes ⟨.L, 0⟩).alive = true := by decide
+
+/-- C04 `lifecycle_ok`.  For EVERY history of operations (including `a = a`, `a.append(a[i])`,
+    `a.resize(n, a[i])`, `a.append(&a[i], n)`, `l.append(l)`, `l.insert(pos, l)`, `m.insert(k, *it)`,
+    `s.append(s)`, `s.remove(s)`, copy construction, swap ...), followed by the destructors of all variables,
+    the complete event log (from the construction of the variables on) is accepted by the checker:
+    per slot the events match (construct (assign | read)* destroy)*, every source of a copy or assignment
+    is a live object, objects are constructed only inside allocated blocks, no block id is allocated twice,
+    a block is freed only while allocated and with no live object inside, and at the end nothing is live
+    and no block is allocated (no leak, no double free, no use after destruction). -/
+theorem lifecycle_ok (ops : List Op) (st' : State) (hd : execAll (run init ops) destroyAll = some st') :
+    WellFormed st'.log := by
+  obtain ⟨i1, t1⟩ := reach_ok ops
+  obtain ⟨i2, t2⟩ := execAll_ok i1 destroyAll hd
+  obtain ⟨hn, ha⟩ := destroyAll_effect i1 hd
+  exact ⟨chkOf st', trace_from_empty (t1.trans t2), clean_of_empty i2 hn ha⟩
+
+/-- C04, prefix form: at every point of every history the log so far is accepted by the checker
+    (so no misuse has happened yet), whether or not the destructors follow. -/
+theorem lifecycle_prefix_ok (ops : List Op) : ∃ c, Chk.init.run (run init ops).log = some c :=
+  ⟨_, trace_from_empty (reach_ok ops).2⟩
+
+/-- non-vacuity of `lifecycle_ok`: a history with alias operations on several containers for which the
+    destructors are defined (the hypothesis `hd` is met), and whose log is therefore well-formed -/
+def sampleOps : List Op :=
+  [.lInsert 0 none 1, .lInsert 0 none 2, .lInsertList 0 (some 1) 0, .assign ⟨.L, 0⟩ 0, .copy ⟨.L, 1⟩ 0,
+   .aAppend 0 5, .aAppend 0 6, .aAppend 0 7, .aAppend 0 8, .aAppendRef 0 0, .aResizeRef 0 9 1, .aAppendArr 0 0,
+   .mInsert ⟨.M, 0⟩ 3 30, .mInsertRef ⟨.M, 0⟩ 3 0, .mInsertMap ⟨.M, 0⟩ 0, .copy ⟨.U, 1⟩ 0,
+   .hInsert 0 none 4 40, .sInsert 0 none 4, .sRemoveSet 0 0, .pAppend 0 9, .qAppend 0 1 2, .swap ⟨.P, 0⟩ 1]
+
+example : (execAll (run init sampleOps) destroyAll).isSome = true := by decide +kernel
+
 end Nstd.Life
